@@ -33,7 +33,10 @@ _XSD = """<xs:schema xmlns:xs="http://www.w3.org/2001/XMLSchema" targetNamespace
    <xs:element name="m" minOccurs="0" maxOccurs="unbounded"><xs:simpleType><xs:list itemType="xs:int"/></xs:simpleType></xs:element>
    <xs:element name="n" minOccurs="0"><xs:complexType><xs:simpleContent><xs:extension base="xs:int">
         <xs:attribute name="u" type="xs:string"/></xs:extension></xs:simpleContent></xs:complexType></xs:element>
- </xs:sequence><xs:attribute name="id" type="xs:int" use="required"/></xs:complexType></xs:element></xs:schema>"""
+   <xs:element name="lr" minOccurs="0"><xs:simpleType><xs:restriction><xs:simpleType><xs:list itemType="xs:int"/></xs:simpleType>
+        <xs:length value="2"/></xs:restriction></xs:simpleType></xs:element>
+ </xs:sequence><xs:attribute name="id" type="xs:int" use="required"/>
+ <xs:attribute name="sz"><xs:simpleType><xs:list itemType="xs:int"/></xs:simpleType></xs:attribute></xs:complexType></xs:element></xs:schema>"""
 SCHEMA = xmlschema.XMLSchema10(_XSD)
 CONV = {
     "default": converters.XMLSchemaConverter, "badgerfish": converters.BadgerFishConverter, "gdata": converters.GDataConverter,
@@ -45,6 +48,8 @@ C_VARIANTS = [None, (None, []), ("1.0", []), ("2", ["2000-01-01"]), (None, ["200
 L_VARIANTS = [None, "1 2 3", "7"]
 # (occurrences of the repeatable list element m, the simple-content-with-attribute element n as (text, attribute u))
 X_VARIANTS = [([], None), (["4 5 6"], ("0", "px")), (["1", "2 3"], ("5", None)), ([], ("0", None))]
+# (list-typed attribute sz on the root, the length-restricted list element lr)
+Y_VARIANTS = [(None, None), ("1 2", None), (None, "3 4"), ("5", "6 7")]
 
 
 def configure(cfg):
@@ -58,7 +63,7 @@ def _a(kw, name):
 
 
 def pre_inst(fn, **kw):
-    lim = {"a": len(A_TEXT), "b": len(B_VARIANTS), "c": len(C_VARIANTS), "l": len(L_VARIANTS), "x": len(X_VARIANTS), "m": 12, "pos": 6}
+    lim = {"a": len(A_TEXT), "b": len(B_VARIANTS), "c": len(C_VARIANTS), "l": len(L_VARIANTS), "x": len(X_VARIANTS), "y": len(Y_VARIANTS), "m": len(MUTATIONS), "pos": 6}
     for k, v in kw.items():
         if not (0 <= v < min(lim[k], CFG.get("lims", {}).get(k, lim[k]))):
             return False
@@ -70,7 +75,8 @@ def _instance(kw):
     bs = B_VARIANTS[pick(_a(kw, "b"), len(B_VARIANTS))]
     c = C_VARIANTS[pick(_a(kw, "c"), len(C_VARIANTS))]
     lv = L_VARIANTS[pick(_a(kw, "l"), len(L_VARIANTS))]
-    xml = '<p:r xmlns:p="urn:u1" id="7"><p:a>%s</p:a>' % a
+    sz, lr = Y_VARIANTS[pick(_a(kw, "y"), len(Y_VARIANTS))]
+    xml = '<p:r xmlns:p="urn:u1" id="7"%s><p:a>%s</p:a>' % ('' if sz is None else ' sz="%s"' % sz, a)
     for text, k in bs:
         xml += '<p:b%s>%s</p:b>' % ('' if k is None else ' k="%s"' % k, text)
     if c is not None:
@@ -83,7 +89,12 @@ def _instance(kw):
         xml += '<p:m>%s</p:m>' % t
     if nv is not None:
         xml += '<p:n%s>%s</p:n>' % ('' if nv[1] is None else ' u="%s"' % nv[1], nv[0])
-    return xml + '</p:r>'
+    if lr is not None:
+        xml += '<p:lr>%s</p:lr>' % lr
+    xml += '</p:r>'
+    if CFG.get("dns"):          # the same document spelled with a default namespace declaration
+        xml = xml.replace('xmlns:p=', 'xmlns=').replace('<p:', '<').replace('</p:', '</')
+    return xml
 
 
 def _shape(elem):
@@ -96,7 +107,9 @@ def h_roundtrip(**kw) -> bool:
     if not SCHEMA.is_valid(xml):
         return False                     # the generator only produces valid instances
     data = SCHEMA.decode(xml, converter=conv)
-    elem = SCHEMA.encode(data, converter=conv, namespaces=NS, path='p:r' if CFG["converter"] in ("default", "gdata") else None)
+    ns = {'': 'urn:u1'} if CFG.get("dns") else NS
+    root_path = 'r' if CFG.get("dns") else 'p:r'
+    elem = SCHEMA.encode(data, converter=conv, namespaces=ns, path=root_path if CFG["converter"] in ("default", "gdata") else None)
     if isinstance(elem, tuple):
         elem = elem[0]
     if elem is None:
@@ -109,7 +122,7 @@ def h_roundtrip(**kw) -> bool:
     if SCHEMA.decode(elem) != SCHEMA.decode(ET.fromstring(xml)):
         return False
     # and the converter's own data is reproduced
-    data2 = SCHEMA.decode(elem, converter=conv, namespaces=NS)
+    data2 = SCHEMA.decode(elem, converter=conv, namespaces=ns)
     return _norm(data2) == _norm(data)
 
 
@@ -125,7 +138,7 @@ def _norm(d):
 
 
 MUTATIONS = ["drop-a", "drop-id", "retype-a-str", "retype-a-none", "dup-a-list", "add-unknown", "add-unknown-attr", "b-to-int", "c-to-str",
-             "reorder", "l-bad-item", "id-str"]
+             "reorder", "l-bad-item", "id-str", "lr-wrong-count", "lr-too-many", "sz-bad-item"]
 
 
 def _mutate(data, m):
@@ -154,6 +167,12 @@ def _mutate(data, m):
         d['p:l'] = [1, 'x']
     elif m == "id-str":
         d['@id'] = 'seven'
+    elif m == "lr-wrong-count":
+        d['p:lr'] = [1]
+    elif m == "lr-too-many":
+        d['p:lr'] = [1, 2, 3]
+    elif m == "sz-bad-item":
+        d['@sz'] = [1, 'x']
     return d
 
 
@@ -207,19 +226,23 @@ def obligations(tier, seed):
     quick = tier == "quick"
     out = []
     for conv in CONV:
-        for lfix in ((0, 1) if quick else (None,)):
-            out.append({"name": "roundtrip/%s%s" % (conv, "" if lfix is None else "/l=%d" % lfix), "fn": "h_roundtrip", "pre": "pre_inst",
-                        "args": [[a, "int"] for a in ("a", "b", "c", "l", "x") if not (a == "l" and lfix is not None)],
-                        "config": {"converter": conv, "lims": {"a": 2, "b": 3, "c": 3} if quick else {}, "fixed": {} if lfix is None else {"l": lfix}},
-                        "timeout": 900 if quick else 3000, "twin_timeout": 40,
-                        "bound": "instances: a from %r, b from %r, c from %r, l from %r, (m, n) from %r" % (A_TEXT, B_VARIANTS, C_VARIANTS, L_VARIANTS, X_VARIANTS)})
+        common = {"timeout": 900 if quick else 3000, "twin_timeout": 40}
+        out.append(dict(common, **{"name": "roundtrip/%s/core" % conv, "fn": "h_roundtrip", "pre": "pre_inst",
+                    "args": [[a, "int"] for a in ("a", "b", "c", "l")],
+                    "config": {"converter": conv, "lims": {"a": 2, "b": 3, "c": 3} if quick else {}},
+                    "bound": "instances: a from %r, b from %r, c from %r, l from %r" % (A_TEXT, B_VARIANTS, C_VARIANTS, L_VARIANTS)}))
+        for dns in (False, True):
+            out.append(dict(common, **{"name": "roundtrip/%s/lists%s" % (conv, "-default-ns" if dns else ""), "fn": "h_roundtrip", "pre": "pre_inst",
+                        "args": [[a, "int"] for a in (("x", "y") if quick else ("x", "y", "b"))],
+                        "config": {"converter": conv, "dns": dns},
+                        "bound": "instances: (m, n) from %r, (sz, lr) from %r%s" % (X_VARIANTS, Y_VARIANTS, ", default-namespace spelling" if dns else "")}))
     from engine.known import open_regions
     skip = set(open_regions(__name__, "h_encode_sound"))
     for m in range(len(MUTATIONS)):
         if "mutation:" + MUTATIONS[m] in skip:
             continue          # the whole obligation is the recorded finding (its stored witness is still replayed)
         out.append({"name": "encode-sound/%s" % MUTATIONS[m], "fn": "h_encode_sound", "pre": "pre_inst",
-                    "args": [[a, "int"] for a in (("b", "c", "x") if quick else ("a", "b", "c", "l", "x"))],
-                    "config": {"converter": "default", "fixed": {"m": m}, "lims": {"b": 3, "c": 3} if quick else {}}, "timeout": 600 if quick else 3000, "twin_timeout": 40,
+                    "args": [[a, "int"] for a in (("b", "x", "y") if quick else ("b", "c", "x", "y"))],
+                    "config": {"converter": "default", "fixed": {"m": m}, "lims": {"b": 2, "y": 3} if quick else {}}, "timeout": 600 if quick else 3000, "twin_timeout": 40,
                     "bound": "mutation %s applied to the decoded data of every instance of the bound" % MUTATIONS[m]})
     return out
